@@ -45,10 +45,20 @@
    assigned to the root user (subject "root"); Owner policy = all actions on (among
    others) the types T1, T2, type-level.
    Pinned beyond the property (compared as DRIFT, never as a verdict): ok/error result
-   of each writer call; rrow/rnode/prow/pnode/att/asg after each step; the policy set
-   returned by RetrievePoliciesForSubject; that an unknown subject is denied even for
-   the EMPTY object list (code: NotFound from the ontology); keys are fresh (a deleted
-   role/policy key is not created again while its node exists).                      *)
+   of each writer call (a different result ends the history: the model state is no longer
+   a reference); rrow/rnode/prow/pnode/att/asg after each step (a difference is recorded
+   and the history goes on: the property-level expectation is fixed by the successful
+   calls); the policy set returned by RetrievePoliciesForSubject (as a set: the code
+   returns a policy once per role it is reachable through); that an unknown subject is
+   denied even for the EMPTY object list (code: NotFound from the ontology); keys are
+   fresh (a deleted role/policy key is not created again while its node exists); the
+   built-in Owner policy is never deleted.
+   Named deviation of the code as written (DeleteMode = "orphan"):
+     Window_DeleteRoleOrphan - after DeleteRole(r) the subjects assigned to r keep, and
+     subjects assigned later still receive, the grants of r's policies. NoOrphanGrant,
+     Biconditional and the delete_role clause of NextCheckReflects fail in this mode only;
+     the generator emits both the property-level (PropCov) and the as-written (CodeCov)
+     expectation so that the harness can tell this window from any other contradiction. *)
 EXTENDS Naturals, FiniteSets, Sequences, TLC
 CONSTANTS Subject,     \* registered subjects (ontology node exists), strings
           Role,        \* user-created role ids
